@@ -451,6 +451,7 @@ void op_world(const std::vector<std::string>& t)
              + " has_locator=" + (has_locator_accessor<ShellT>::value ? "1" : "0")
              + " locator_is_comp_loc=" + locator_is_comp_locator(s, &c->dzn_locator)
              + " proto_keys=" + std::to_string(keys_before) + "/" + std::to_string(W->proto.keys().size())
+             + " comp_keys=" + std::to_string(c->dzn_locator.keys().size())
              + " meta_name=" + c->dzn_meta.name);
     emit_idents(s, c);
 }
@@ -792,6 +793,7 @@ void op_conc(const std::vector<std::string>& t)
                 for (long cycle = 0; cycle < cycles; ++cycle)
                 {
                     CallRes claim;
+                    vt::emit(me + " claim-begin");
                     invoke_@I@(*ports[n], @CLAIM@, true, zeros.data(), claim);
                     vt::emit(me + " claim ret=" + std::to_string(claim.ret));
                     if (claim.ret != grant) { ++denied; std::this_thread::yield(); continue; }
